@@ -2,6 +2,8 @@
 # offline bootstrap: everything needed is already in /venv; fall back to the local wheelhouse otherwise
 HERE="$(cd "$(dirname "$0")" && pwd)"
 PY=/venv/bin/python
+# atheris (coverage-guided parts of C14 C15 C17) goes beside the checks; without it those parts report themselves as skipped
+PYTHONPATH="$HERE/.deps" $PY -c "import atheris" 2>/dev/null || $PY -m pip install --no-index --find-links /opt/veriftools/wheels --target "$HERE/.deps" atheris >/dev/null 2>&1
 $PY -c "import hypothesis, numpy, scipy, desolver" 2>/dev/null && { echo "deps ok"; exit 0; }
 $PY -m pip install --no-index --find-links /opt/veriftools/wheels --target "$HERE/.deps" hypothesis 2>&1 | tail -1
 PYTHONPATH="/repo:$HERE/.deps" $PY -c "import hypothesis, numpy, scipy, desolver" && echo "deps ok"
